@@ -130,6 +130,7 @@ def finish(prop, mod, tier, a, specs, results, t0, fnd):
     reach_lines = {}
     reach_funcs = {}
     shard_status = {}
+    info['interpreter_hash_seeds'] = sorted({str(s.get('hashseed', '0')) for s in specs})
     for r in results:
         st = r.get('status')
         shard_status[st] = shard_status.get(st, 0) + 1
